@@ -119,6 +119,7 @@ class Body:
         self.j = j
         self.crate = crate
         self.path = j["path"]
+        self.id = j.get("id", j["path"])
         self.blocks = j["blocks"]
         self.locals = j["locals"]
         self.arg_count = j["arg_count"]
@@ -273,6 +274,9 @@ class Program:
         self.config = config
         self.crates = {}
         self.bodies = {}
+        self.all_bodies = []
+        self.by_id = {}
+        self.adts_by_id = {}
         self.adts = {}
         self.impls = []
         self.consts = {}
@@ -287,9 +291,25 @@ class Program:
             self.crates[c] = d
             for b in d["bodies"]:
                 body = Body(b, c)
-                self.bodies[body.path] = body
+                self.all_bodies.append(body)
+                self.by_id[body.id] = body
+                # items of different anonymous `const _` blocks print the same path: keep all, suffix later ones
+                k = body.path
+                n = 1
+                while k in self.bodies:
+                    n += 1
+                    k = "%s#%d" % (body.path, n)
+                if n > 1:
+                    body.path_unique = k
+                self.bodies[k] = body
             for a in d["adts"]:
-                self.adts[a["path"]] = a
+                k = a["path"]
+                n = 1
+                while k in self.adts:
+                    n += 1
+                    k = "%s#%d" % (a["path"], n)
+                self.adts[k] = a
+                self.adts_by_id[a.get("id", k)] = a
             for i in d["impls"]:
                 i["crate"] = c
                 self.impls.append(i)
@@ -302,7 +322,7 @@ class Program:
         # index of methods by (self ADT, trait-or-None, method name): rules never
         # mention private module paths.
         self.methods = defaultdict(list)
-        for b in self.bodies.values():
+        for b in self.all_bodies:
             ri = b.j.get("root_item")
             if ri and b.path == b.root and "impl" in ri:
                 name = b.path.rsplit("::", 1)[-1]
@@ -322,7 +342,7 @@ class Program:
         """The coroutine holding the real code of an async fn (async_trait boxes it too)."""
         if fn_body is None:
             return None
-        return self.bodies.get(fn_body.path + "::{closure#0}")
+        return self.by_id.get(fn_body.id + "::{closure#0}") or self.bodies.get(fn_body.path + "::{closure#0}")
 
     def body(self, path):
         return self.bodies.get(path)
@@ -371,9 +391,9 @@ class Program:
     def local_callee_bodies(self, t):
         """Workspace bodies a call may enter (resolved or declared)."""
         out = []
-        for n in (t.get("resolved"), t.get("callee")):
-            if n and n in self.bodies:
-                b = self.bodies[n]
+        for n in (t.get("resolved_id"), t.get("callee_id")):
+            if n and n in self.by_id:
+                b = self.by_id[n]
                 if b not in out:
                     out.append(b)
         return out
@@ -383,7 +403,8 @@ class Program:
         out = []
         for bb, s in body.stmts():
             if s["k"] == "assign" and s["rv"]["k"] == "agg" and s["rv"].get("ak") in ("closure", "coroutine", "coroutine_closure"):
-                out.append(s["rv"]["def"])
+                b = self.by_id.get(s["rv"].get("def_id"))
+                out.append(b.path if b is not None else s["rv"]["def"])
         return out
 
     def call_closure(self, roots, stop=lambda b: False):
@@ -402,14 +423,17 @@ class Program:
             nxt = []
             for bb, t in b.calls():
                 nxt.extend(self.local_callee_bodies(t))
-            for d in self.closure_defs_in(b):
-                if d in self.bodies:
-                    nxt.append(self.bodies[d])
+            for bb2, s2 in b.stmts():
+                if s2["k"] == "assign" and s2["rv"]["k"] == "agg" and s2["rv"].get("ak") in ("closure", "coroutine", "coroutine_closure"):
+                    cb2 = self.by_id.get(s2["rv"].get("def_id")) or self.bodies.get(s2["rv"]["def"])
+                    if cb2 is not None:
+                        nxt.append(cb2)
             for p in b.promoted:
                 pass
             for n in nxt:
-                if n.path not in seen:
-                    seen[n.path] = n
+                k = getattr(n, "path_unique", n.path)
+                if k not in seen:
+                    seen[k] = n
                     dq.append(n)
         return seen
 
